@@ -640,7 +640,10 @@ def soft_pvi(job):
             for j in range(n - p + 1, n + 1):
                 acc += (iterates[j] - iterates[j - 1]) / gamma ** (j - 1)
             dis = float(acc.max() - acc.min())
-            tol = 1e-9 * max(abs(und), abs(dis), 1e-300)
+            # relative to the measure, with a floor relative to the magnitude of the accumulated differences: a measure
+            # of (nearly) zero - all states moving in step - carries rounding noise of that magnitude
+            scale = max(1.0, float(np.abs(acc).max()), float(np.abs(d1).max()))
+            tol = max(1e-9 * max(abs(und), abs(dis)), 1e-12 * scale)
             entry["undisc"] = abs(conv - und) <= tol
             entry["disc"] = abs(conv - dis) <= tol
             entry["differ"] = abs(und - dis) > 100 * tol
